@@ -408,10 +408,18 @@ def term_prefix_guard(rep: Report, prog: Program) -> None:
     fi = prog.func("formatting._unit_to_magnitude_and_terms")
     cfg = CFG(fi.node)
     n = 0
-    for st in ast.walk(fi.node):
-        if not (isinstance(st, ast.Assign) and isinstance(st.value, ast.Tuple) and len(st.value.elts) == 3):
+    term_tuples: List[Tuple[ast.stmt, ast.Tuple]] = []
+    for tp in ast.walk(fi.node):
+        # a term is a (prefix, symbol, exponent) tuple wherever it is built: assigned, appended, or in the returned list
+        if not (isinstance(tp, ast.Tuple) and len(tp.elts) == 3 and isinstance(tp.ctx, ast.Load)):
             continue
-        p0 = st.value.elts[0]
+        host = tp
+        while host is not None and not isinstance(host, ast.stmt):
+            host = getattr(host, "_parent", None)
+        if isinstance(host, ast.stmt) and not isinstance(host, (ast.FunctionDef, ast.AnnAssign)) or (isinstance(host, ast.AnnAssign) and host.value is not None):
+            term_tuples.append((host, tp))  # type: ignore[arg-type]
+    for st, tp in term_tuples:
+        p0 = tp.elts[0]
         nid = cfg.node_of(st)
         if nid is None:
             continue
